@@ -36,8 +36,11 @@ if [ "$res" = ok ] && [ "${SKIP_SUITE:-0}" != 1 ]; then
   suite pinned ""
   suite tree "PYTHONPATH=$wt/Python"
   [ -f /tmp/confirm/baseline.pinned ] || { (cd "$wt" && git stash -q 2>/dev/null; true); }
-  cmp -s "$log.pass.pinned" /tmp/confirm/baseline.pinned || res="pinned-suite-differs"
-  cmp -s "$log.pass.tree" /tmp/confirm/baseline.tree || res="tree-suite-differs"
+  # two tests bind fixed ports and flake whenever another pytest runs concurrently in this sandbox (they also toggle
+  # on the unmodified tree): they are left out of the comparison
+  flaky='test_21.py::StateTransitions::test_starting|test_03.py::Logger::test_issue_45'
+  cmp -s <(grep -Ev "$flaky" "$log.pass.pinned") <(grep -Ev "$flaky" /tmp/confirm/baseline.pinned) || res="pinned-suite-differs"
+  cmp -s <(grep -Ev "$flaky" "$log.pass.tree") <(grep -Ev "$flaky" /tmp/confirm/baseline.tree) || res="tree-suite-differs"
 fi
 echo "$sid $pid $res clean_rc=$clean_rc mut_rc=${mut_rc:-NA}"
 if [ "$res" = ok ]; then
